@@ -1,16 +1,7 @@
-; harness ListingWhileCreating assert L3-listed-iff-requested-matching-and-permitted expected unsat
+; harness ListingAfterDynamicCreate assert L3-listed-iff-requested-matching-and-permitted expected unsat
 (set-logic ALL)
-(declare-const perm_Wallet1_acc1 Bool)
-(assert perm_Wallet1_acc1)
-(declare-const perm_Wallet1_acc2 Bool)
-(assert perm_Wallet1_acc2)
 (declare-const perm_Wallet1_acc9 Bool)
 (assert perm_Wallet1_acc9)
-(assert perm_Wallet1_acc1)
-(assert perm_Wallet1_acc2)
-(assert perm_Wallet1_acc9)
-(declare-const perm_Wallet1_acc8 Bool)
-(assert perm_Wallet1_acc8)
-(define-fun t221 () Bool (not perm_Wallet1_acc1))
-(assert t221)
+(define-fun t330 () Bool (not perm_Wallet1_acc9))
+(assert t330)
 (check-sat)
